@@ -14,6 +14,7 @@ package vsched
 import (
 	"fmt"
 	"time"
+	"unsafe"
 )
 
 const (
@@ -129,9 +130,23 @@ type sched struct {
 	releasePt bool
 }
 
-// Active is true while an exploration execution is running; the shims consult it
-// on every operation and fall through to the real primitive otherwise.
-var Active bool
+// active is true while an exploration execution is running; the shims consult it
+// (through On) on every operation and fall through to the real primitive otherwise.
+var active bool
+
+// On reports whether an exploration execution is running. It is norace: the flag is
+// written by the harness goroutine only while every managed thread is parked.
+//
+//go:norace
+func On() bool { return active }
+
+//go:norace
+func setActive(v bool) { active = v }
+
+// startSync / joinSync carry the two happens-before edges that must stay visible to
+// the race detector although the hand-offs are hidden: harness set-up -> every
+// thread, and every thread -> harness oracle.
+var startSync, joinSync int32
 
 var s sched
 
@@ -164,17 +179,19 @@ func Run(bodies []func(), o Opts) Result {
 		panic("vsched: too many threads")
 	}
 	setup(len(bodies), o)
+	setActive(true)
+	RaceReleaseMerge(unsafe.Pointer(&startSync))
 	for i := range bodies {
 		body := bodies[i]
 		id := i
-		w := s.th[i].wake
+		w := threadWake(i)
 		go func() {
 			park(w)
+			RaceAcquire(unsafe.Pointer(&startSync))
 			defer finish(id)
 			body()
 		}()
 	}
-	Active = true
 	schedule()
 	to := o.Timeout
 	if to == 0 {
@@ -182,14 +199,24 @@ func Run(bodies []func(), o Opts) Result {
 	}
 	var res Result
 	select {
-	case <-s.done:
+	case <-doneChan():
 	case <-time.After(to):
-		s.status = StHang
+		setHang()
 	}
-	Active = false
+	setActive(false)
+	RaceAcquire(unsafe.Pointer(&joinSync))
 	collect(&res)
 	return res
 }
+
+//go:norace
+func threadWake(i int) chan struct{} { return s.th[i].wake }
+
+//go:norace
+func doneChan() chan struct{} { return s.done }
+
+//go:norace
+func setHang() { s.status = StHang }
 
 //go:norace
 func setup(n int, o Opts) {
@@ -251,6 +278,7 @@ func finish(id int) {
 	if r := recover(); r != nil {
 		setPanic(id, r)
 	}
+	RaceReleaseMerge(unsafe.Pointer(&joinSync))
 	finishSched(id)
 }
 
@@ -383,7 +411,7 @@ func Self() int { return s.cur }
 
 // Yield is an explicit scheduling point for driver code inside user callbacks.
 func Yield() {
-	if !Active {
+	if !On() {
 		return
 	}
 	point(KYield, nil, nil)
@@ -391,7 +419,7 @@ func Yield() {
 
 // Atomic is the scheduling point taken before every atomic operation.
 func Atomic() {
-	if !Active {
+	if !On() {
 		return
 	}
 	point(KAtomic, nil, nil)
@@ -561,14 +589,17 @@ func (d *Daemon) Park() bool {
 	if d.isCancelled() {
 		return false
 	}
-	if Active && d.isAdopted() {
+	if On() && d.isAdopted() {
+		RaceReleaseMerge(unsafe.Pointer(&joinSync))
 		daemonPoint()
+		RaceAcquire(unsafe.Pointer(&startSync))
 	} else {
 		select {
 		case d.parked <- struct{}{}:
 		default:
 		}
 		park(d.wake)
+		RaceAcquire(unsafe.Pointer(&startSync))
 	}
 	return !d.isCancelled()
 }
